@@ -16,7 +16,12 @@ HEADER_RE = r"Polyhedron_(inlines|templates|chdims_templates)\.hh"
 ANCHOR = ("select_H79_constraints", 3)
 MIN_REQ = 15
 # preconditions a worker relies on without asserting them (stated here, discharged at its call sites)
-IMPLICIT_REQ = {}
+IMPLICIT_REQ = {
+    # collapsing an object of positive dimension to the zero-dimensional universe asserts that it is
+    # not empty: the witness is a complete generator description (the zero-dimensional branches are
+    # pruned by the explorer, so only collapsing call sites are judged)
+    ("set_zero_dim_univ", 0): [("this", "NE", True)],
+}
 
 # predicate -> (atom, value when the predicate is true)
 PRED = {
@@ -58,6 +63,9 @@ def entails(st, atom, val):
     (pending rows exist only on one side and only on top of two minimized, up-to-date descriptions)?"""
     if st.get(atom) is val:
         return True
+    if atom == "NE" and val is True:
+        # a complete generator description of an object not marked empty holds a point
+        return entails(st, "GU", True) and entails(st, "PC", False)
     # rows are pending only on top of two up-to-date (minimized) descriptions, and on one side only
     if atom == "PG" and val is False:
         return st.get("PC") is True or st.get("GU") is False or st.get("CU") is False
@@ -177,7 +185,7 @@ def mine(ctx):
     return req
 
 
-NAMES = {"SP": "has_something_pending()", "PG": "has_pending_generators()", "PC": "has_pending_constraints()", "CU": "constraints_are_up_to_date()",
+NAMES = {"NE": "<known non-empty>", "SP": "has_something_pending()", "PG": "has_pending_generators()", "PC": "has_pending_constraints()", "CU": "constraints_are_up_to_date()",
          "GU": "generators_are_up_to_date()", "CM": "constraints_are_minimized()", "GM": "generators_are_minimized()",
          "SC": "sat_c_is_up_to_date()", "SG": "sat_g_is_up_to_date()"}
 
@@ -244,7 +252,7 @@ def direct_reads(f):
     return out
 
 
-def discharge(ctx, rid, exceptions=None, judged_atoms=("PG", "PC", "CU", "GU"), direct=False):
+def discharge(ctx, rid, exceptions=None, judged_atoms=("PG", "PC", "CU", "GU", "NE"), direct=False, only_callees=None):
     exceptions = exceptions or {}
     req = mine(ctx)
     ctx.require(rid, ANCHOR in req and len(req) >= MIN_REQ,
@@ -263,7 +271,7 @@ def discharge(ctx, rid, exceptions=None, judged_atoms=("PG", "PC", "CU", "GU"), 
             if c["k"] != "mcall":
                 continue
             key = (f.call_name(c), len(f.call_args(c)))
-            if key not in req:
+            if key not in req or (only_callees is not None and key[0] not in only_callees):
                 continue
             ro = obj_key(f, f.call_obj(c))
             obl = []
@@ -285,6 +293,8 @@ def discharge(ctx, rid, exceptions=None, judged_atoms=("PG", "PC", "CU", "GU"), 
                     if lit is not None and literal(f, lit):
                         in_assert[lit["i"]] = a_
         reads = direct_reads(f) if direct else {}
+        if only_callees is not None and not sites:
+            continue
         if not sites and not in_assert and not reads:
             continue
         own = req.get((f.name, len(f.params)), [])
@@ -362,6 +372,9 @@ def discharge(ctx, rid, exceptions=None, judged_atoms=("PG", "PC", "CU", "GU"), 
                     return None       # zero-dimensional: both descriptions are trivial
                 if t in ("space_dim!=0",) and ((taken == pol) != True):
                     return None
+            if cn is not None and cn["k"] == "binop" and cn.get("op") == ">" and \
+                    f.text(cn).replace(" ", "").replace("x.", "") == "space_dim>0" and (taken == pol) is False:
+                return None
             if cn is None or cn["k"] != "mcall":
                 return env
             o = obj_key(f, f.call_obj(cn))
@@ -396,8 +409,14 @@ def discharge(ctx, rid, exceptions=None, judged_atoms=("PG", "PC", "CU", "GU"), 
                 env[(o, "GM")] = True
             elif nm in EMPTY_IF_FALSE and not truth:
                 return None       # the object turned out to be empty: the callers return on this edge
+            elif nm in EMPTY_IF_FALSE and truth:
+                env = dict(env)
+                env[(o, "NE")] = True
             elif nm in ("marked_empty", "is_empty") and truth:
                 return None
+            elif nm == "is_empty" and not truth:
+                env = dict(env)
+                env[(o, "NE")] = True
             return env
         ex = flow.Explorer(f, elem_effect=elem_effect, edge_effect=edge_effect)
         p = ex.find_path("ENTRY", lambda x: False, "EXIT", exit_ok=lambda env: True, start_env=start, max_states=400000)
@@ -405,6 +424,8 @@ def discharge(ctx, rid, exceptions=None, judged_atoms=("PG", "PC", "CU", "GU"), 
             raise F.AnalysisBroken("%s: state limit reached while exploring %s" % (rid, f.short))
         who = F.strip_ns(f.sig()).split("::", 1)[-1].split("(")[0]
         for ai in sorted(set(a["i"] for a in in_assert.values())):
+            if only_callees is not None:
+                break
             an = f.nodes[ai]
             n_sites += 1
             inst = CLS + "::%s asserts `%s`" % (who, f.text(an["c"][0])[:60])
@@ -420,6 +441,8 @@ def discharge(ctx, rid, exceptions=None, judged_atoms=("PG", "PC", "CU", "GU"), 
                     ctx.violation(rid, inst, f.where(an), "the assertion claims %s about %s, but a path reaches it where only {%s} is known: the suite runs without assertions and the code below relies on the claim" % (
                         show(a, v), oname, ", ".join(show(k, w) for k, w in sorted(st.items()))))
         for i, (o_, side, m_) in sorted(reads.items()):
+            if only_callees is not None:
+                break
             n_sites += 1
             inst = CLS + "::%s reads %s%s" % (who, "" if o_ == "this" else o_[1] + ".", side)
             if i not in rfail:
@@ -452,7 +475,7 @@ def discharge(ctx, rid, exceptions=None, judged_atoms=("PG", "PC", "CU", "GU"), 
             if False:
                 pass
             else:
-                ctx.violation(rid, inst, f.where(c), "%s() asserts %s about %s, but a path reaches the call where only {%s} is known about it: without assertions a stale description is read" % (
+                ctx.violation(rid, inst, f.where(c), "%s() requires %s of %s (asserted or tabled precondition), but a path reaches the call where only {%s} is known about it: the suite runs without assertions, so the worker silently proceeds on a stale or unproved state" % (
                     f.call_name(c), show(a, v), oname, ", ".join(show(k, w) for k, w in sorted(st.items()))))
     ctx.count(rid, "asserted atoms judged", n_atoms)
     ctx.count(rid, "obligations on local objects not judged", skipped)
@@ -469,6 +492,8 @@ def _entails_poly(st, atom, val):
 def entails_grid(st, atom, val):
     if st.get(atom) is val:
         return True
+    if atom == "NE" and val is True:
+        return entails_grid(st, "GU", True)
     # a non-empty grid has at least one description up to date; minimized implies up to date
     if atom == "CU" and val is True:
         return st.get("CM") is True or st.get("GU") is False
@@ -509,9 +534,10 @@ GRID = {
     "EMPTY_IF_FALSE": ("minimize", "update_generators", "simplify"),
     "entails": entails_grid,
     "NEED": {"con_sys": (("CU", True),), "gen_sys": (("GU", True),)},
-    "NAMES": {"CU": "congruences_are_up_to_date()", "GU": "generators_are_up_to_date()",
+    "NAMES": {"NE": "<known non-empty>", "CU": "congruences_are_up_to_date()", "GU": "generators_are_up_to_date()",
               "CM": "congruences_are_minimized()", "GM": "generators_are_minimized()"},
     "KEEPS_RECEIVER_UNLESS_COMMITTED": (),
     "SKIP_FUNCS": SKIP_FUNCS + ("construct",),
-    "IMPLICIT_REQ": {("update_congruences", 0): [("this", "GU", True)]},
+    "IMPLICIT_REQ": {("update_congruences", 0): [("this", "GU", True)],
+                     ("set_zero_dim_univ", 0): [("this", "NE", True)]},
 }
